@@ -303,11 +303,12 @@ CHECKS["C12"] = {
             "afterwards a late response for every finished id is delivered and a fresh transaction must still complete (read loop alive), then Close, 10 s of silence, sockets closed, bubble drains. "
             "Fire-and-forget (ignoreResult): RTO x what the caller does with its message afterwards {nothing, a fresh message, msg.Build in place for a second transaction, overwrite msg.Raw} x instant of the reuse "
             "(at once, between transmissions k and k+1) x answers to either transaction: every transmission byte-identical to the request as handed over, on its own timetable, table empty, read loop alive. "
-            "Engine B (sched): K1 response vs retransmission timer vs duplicate vs Close, K1b crossed responses, K6 Close racing the start of a transaction (insert / first write / timer arming / wait), K7 a response that arrives while the sender is still between its first write and the wait, K12 a response that arrives at the instant of the transaction's last timer (then a second transaction and Close), <= 2/3 preemptions. "
+            "Engine B (sched): K1 response vs retransmission timer vs duplicate vs Close, K1b crossed responses, K6 Close racing the start of a transaction (insert / first write / timer arming / wait), K7 a response that arrives while the sender is still between its first write and the wait, (forget-close) Client.Close half an interval after transmission k = 1..6 of a pending fire-and-forget transaction: nothing more is sent, nothing stays in the table; K12 a response that arrives at the instant of the transaction's last timer (then a second transaction and Close), <= 2/3 preemptions. "
             "A class is (answer kind, noise, write-error kind, close kind -> observed completion).",
     "parts": [A("single", "./checks/c12", "TestC12Single", budget={"quick": 60, "thorough": 900}),
               A("concurrent", "./checks/c12", "TestC12Concurrent", budget={"quick": 60, "thorough": 900}),
               A("forget", "./checks/c12", "TestC12Forget", budget={"quick": 60, "thorough": 900}),
+              A("forget-close", "./checks/c12", "TestC12ForgetClose", budget={"quick": 30, "thorough": 60}),
               A("sched", "./checks/bsem", "TestC12Sched", overlay=True, gomaxprocs=1, budget={"quick": 90, "thorough": 1500})],
 }
 
